@@ -577,6 +577,12 @@ func TestC10(t *testing.T) {
 		default:
 			n = rapid.IntRange(101, 400).Draw(rt, "nframes_many")
 		}
+		// a burst: many minimal frames (barrier / echo replies are 8 bytes) arriving coalesced, so that single
+		// reads hold far more complete frames than the stream has pool buffers (50) and parsers (25)
+		burst := gen.Pick(rt, "tiny_burst", 6) == 0
+		if burst {
+			n = rapid.IntRange(51, 400).Draw(rt, "burst_frames")
+		}
 		frames := make([][]byte, n)
 		total := 0
 		for i := range frames {
@@ -584,10 +590,25 @@ func TestC10(t *testing.T) {
 			if total > 300000 {
 				sz = 8 + i%40
 			}
+			if burst {
+				sz = 8 + 8*gen.Pick(rt, "burst_size", 3)
+			}
 			frames[i] = rawFrame(rt, uint32(i+1), sz)
 			total += sz
 		}
 		sc := drawInScript(rt, frames)
+		if burst && sc.failAfter < 0 {
+			// re-cut: reads as large as the reader's buffer takes (up to 2048 bytes = up to 256 frames each)
+			stream := bytes.Join(sc.chunks, nil)
+			sc.chunks = nil
+			for len(stream) > 0 {
+				k := min(len(stream), rapid.IntRange(1200, 4000).Draw(rt, "burst_chunk"))
+				sc.chunks = append(sc.chunks, stream[:k])
+				stream = stream[k:]
+			}
+			sc.desc = append(sc.desc, fmt.Sprintf("burst of %d minimal frames in %d reads", n, len(sc.chunks)))
+			c.Label("burst_of_minimal_frames_in_few_reads")
+		}
 		c.Eval()
 		inLabels(c, sc)
 		key := func(m util.Message) string {
